@@ -217,6 +217,18 @@ def t_empty_delims(c, rng):
     return d if ok else None
 
 
+def t_root_slash(c, rng):
+    """'http://a.com' <-> 'http://a.com/': an empty path and the root path are the same resource (adding an empty path segment)."""
+    d = copy.deepcopy(c)
+    if c.get("path") is None:
+        d["path"], d["trailing"] = [], True
+    elif c.get("path") == [] and c.get("trailing"):
+        d["path"], d["trailing"] = None, False
+    else:
+        return None
+    return d
+
+
 # string-level: raw control characters anywhere (the cleaning pass runs first, so position is irrelevant)
 def s_insert_controls(u, rng):
     n = rng.randint(1, 3)
@@ -235,4 +247,5 @@ CASE_T = {
     "whitespace-wrap": t_whitespace_wrap,
     "dot-segments": t_dot_segments,
     "empty-delims": t_empty_delims,
+    "root-slash": t_root_slash,
 }
